@@ -20,16 +20,44 @@ def load_plan(prop):
     return mod
 
 
+def replay(ctx, path):
+    """Run the one behaviour / vector of a replay artefact through its driver again and let TLC judge the
+    recorded trace with the same trace specification. Exit 1 if the artefact's predicate fails again."""
+    import json
+    import os
+    art = json.load(open(path))
+    rec, item = art.get("recipe"), art.get("input_item")
+    if not rec or item is None:
+        print("artefact has no replay recipe (it comes from a multi-stage plan): running the whole check with its seed")
+        ctx.seed = art.get("seed", ctx.seed)
+        return load_plan(ctx.prop).run(ctx)
+    binary = vlib.go_build(ctx, rec["harness"], race=rec.get("race", False), tags=rec.get("tags", "verif"))
+    infile = vlib.write_json(os.path.join(ctx.work, "replay-input.json"), [item])
+    trace = os.path.join(ctx.work, "replay-trace.ndjson")
+    vlib.go_run(ctx, binary, rec["test"], infile, trace, env=rec.get("env"), timeout=1200, allow_fail=True)
+    viol = vlib.tlc_trace(ctx, rec["spec"], rec["cfg"], trace)
+    want = art["violation"].get("pred")
+    again = [v for v in viol if v.get("prop") == ctx.prop and v.get("pred") == want]
+    for v in viol:
+        print("  judged: prop=%s pred=%s sig=%s" % (v.get("prop"), v.get("pred"), v.get("sig")))
+    if again:
+        print("VIOLATION property=%s replay=%s" % (ctx.prop, path))
+        print("  reproduced: pred=%s sig=%s" % (want, again[0].get("sig")))
+        return 1
+    print("not reproduced: predicate %s holds on the replayed behaviour" % want)
+    return 0
+
+
 def cmd_check(args):
     tier = args.tier or os.environ.get("VERIF_TIER") or "quick"
     seed = int(os.environ.get("VERIF_SEED") or "1")
     ctx = vlib.Ctx(args.prop, tier, seed)
-    if args.replay:
-        ctx.replay = args.replay
-    else:
-        ctx.replay = None
+    ctx.replay = args.replay
     try:
-        rc = load_plan(args.prop).run(ctx)
+        if args.replay:
+            rc = replay(ctx, args.replay)
+        else:
+            rc = load_plan(args.prop).run(ctx)
     except vlib.NoVerdict as e:
         print("NO-VERDICT property=%s: %s" % (args.prop, e))
         rc = 2
